@@ -36,8 +36,8 @@ class SolvGen:
         self.ieqs = []
         self.affine = self.kind == "affine"
 
-    def decl(self, name, prefix="", value=None, attrs=None):
-        self.decls.append((prefix, "Real", name, dict(attrs or {}), value))
+    def decl(self, name, prefix="", value=None, attrs=None, typ="Real"):
+        self.decls.append((prefix, typ, name, dict(attrs or {}), value))
 
     def rand_attrs(self):
         r = self.r
@@ -88,9 +88,17 @@ class SolvGen:
         if r.random() < 0.5:
             # parameter expression
             p0 = self.params[0]
+            fwd = r.random() < 0.4
+            if fwd:
+                # an expression parameter that refers to an expression parameter declared after it
+                self.decl("pr", "parameter", value=("bin", "+", ("bin", "*", num(3), var("pq")), num(1)))
             self.decl("pq", "parameter", value=("bin", "+", ("bin", "*", num(2), var(p0)), num(0.5)))
             self.val["pq"] = 2 * self.val[p0] + 0.5
             self.params.append("pq")
+            if fwd:
+                self.val["pr"] = 3 * self.val["pq"] + 1
+                self.params += ["pr", "pr"]
+                self.tags.add("parameter-expression:forward-reference")
             self.tags.add("parameter-expression")
         if r.random() < 0.4:
             v = q(r, 0.5, 4)
@@ -232,7 +240,17 @@ class SolvGen:
         name = "b%d" % (len(self.alias_info) + 1)
         sign = r.choice([1, 1, -1])
         form = r.choice(["eq", "eq-swapped", "sum-zero"])
-        self.decl(name, attrs=self.rand_attrs_alias())
+        if self.with_attrs and r.random() < 0.15:
+            # an Integer member of the alias set, with whole-number bounds (the other members' bounds are fractional)
+            at = {}
+            if r.random() < 0.7:
+                at["min"] = ("neg", num(r.randint(5, 20)))
+            if r.random() < 0.7:
+                at["max"] = num(r.randint(5, 20))
+            self.decl(name, attrs=at, typ="Integer")
+            self.tags.add("alias:integer-member")
+        else:
+            self.decl(name, attrs=self.rand_attrs_alias())
         self.val[name] = sign * self.val[tgt]
         self.unknowns.append(name)
         self.alg.append(name)
